@@ -161,7 +161,14 @@ func createMethodMatcher(methods []string) (methodMatcher, error) {
 	methods = slicex.Subtract(methods, tbr)
 	tbr = slicex.Map[string, string](tbr, func(s string) string { return strings.TrimPrefix(s, "!") })
 
-	return slicex.Subtract(methods, tbr), nil
+	result := slicex.Subtract(methods, tbr)
+	if len(result) == 0 {
+		// an empty matcher matches any method
+		return nil, errorchain.NewWithMessage(heimdall.ErrConfiguration,
+			"methods list does not allow any method. have you forgotten to add ALL to a list of excluded methods?")
+	}
+
+	return result, nil
 }
 
 func createHostMatcher(hosts []config.HostMatcher) (RouteMatcher, error) {
